@@ -42,7 +42,7 @@ type Step struct {
 	M       int    `json:"m,omitempty"`
 	ID      string `json:"id,omitempty"`
 	Proj    *Proj  `json:"proj,omitempty"` // the model's state after this step, as far as VerifSnapshot shows it
-	Out     string `json:"out,omitempty"` // cbret: outcome of the callback handler (ok | err:7 | err:plain | err:baddata | badresult | panic)
+	Out     string `json:"out,omitempty"`  // cbret: outcome of the callback handler (ok | err:7 | err:plain | err:baddata | badresult | panic)
 	Items   []Item `json:"items,omitempty"`
 	Arr     bool   `json:"arr,omitempty"`
 	CtxKind string `json:"ctxkind,omitempty"` // "" (cancel) | deadline | cancelcause | deadlinecause | childofcause
